@@ -181,7 +181,7 @@ pub struct Shard18 {
     relax: u64,
     steps: u64,
     convs: u64,
-    sim_s: u64,
+    sim_ns: String,
     threads: u64,
     counters: BTreeMap<String, u64>,
     det_checked: u64,
@@ -233,7 +233,7 @@ pub fn shard(cfg: Config, seed: u64, from: u64, to: u64, out: &str) -> i32 {
             }
         }
     }
-    sh.sim_s = (sim_ns / 1_000_000_000) as u64;
+    sh.sim_ns = sim_ns.to_string();
     std::fs::write(format!("{}.json", out), serde_json::to_string(&sh).unwrap()).expect("write shard");
     crate::runner::write_hashes(std::path::Path::new(&format!("{}.ilv", out)), &distinct);
     crate::runner::write_hashes(std::path::Path::new(&format!("{}.ilvnt", out)), &distinct_nt);
@@ -250,7 +250,7 @@ pub fn run(opts: &Opts, only: Option<Config>) -> i32 {
     let mut distinct_nontrivial: HashSet<u64> = HashSet::new();
     let mut samples: Vec<Value> = Vec::new();
     let mut evals = 0u64;
-    let mut sim_s_total: u64 = 0;
+    let mut sim_ns_total: u128 = 0;
     let mut det_checked = 0u64;
     let mut classes_seen: Vec<String> = Vec::new();
     for (cfg, n) in budgets(&opts.tier, opts.scale) {
@@ -278,7 +278,7 @@ pub fn run(opts: &Opts, only: Option<Config>) -> i32 {
             c_evals += r.r1_evals;
             c_disc += r.r1_disc;
             c_after += r.r1_after;
-            sim_s_total += r.sim_s;
+            sim_ns_total += r.sim_ns.parse::<u128>().unwrap_or(0);
             *tot.entry("steps".into()).or_insert(0) += r.steps;
             *tot.entry("conversions".into()).or_insert(0) += r.convs;
             *tot.entry("worker_threads_spawned".into()).or_insert(0) += r.threads;
@@ -343,7 +343,7 @@ pub fn run(opts: &Opts, only: Option<Config>) -> i32 {
         "samples": samples,
         "per_config": per_cfg,
         "runs_per_hour": (evals as f64 / wall * 3600.0) as u64,
-        "simulated_seconds": sim_s_total,
+        "simulated_seconds": (sim_ns_total / 1_000_000_000) as u64,
         "counters_fired": tot,
         "determinism_rechecks": det_checked,
         "system_zoneinfo_files_loaded": sys.zones.len(),
